@@ -32,7 +32,11 @@ RULE = ("random molecule G (gens.rand_mol, 1-8 atoms, rings, orders 1/1.5/2/3) a
         "derivation histories: the base graph OBJECTS go through get_its, then the graphs under test are derived from those "
         "objects with Graph.copy / nx.relabel_nodes(copy=True|False) / subgraph(..).copy() / the same object, ids permuted "
         "and map numbers permuted, renumbered or dropped, and get_its on the derived objects is compared with the model on "
-        "the derived contents; every call is checked to leave nodes, adjacency, all attribute dicts and G.graph / H.graph "
+        "the derived contents; 5% dispatch cases: well-formed and malformed strings (three / four parts, '>>>', single '>', a "
+        "part RDKit rejects on either side, molecule SMILES, empty string, empty sides, spaces, trailing '>>') go through "
+        "smiles_to_graph, reaction_smiles_to_graph and ITS.from_smiles; answer kind, exception class, error kind and the part "
+        "named in the message are compared with the documented dispatch model (RDKit's acceptance of a part is the oracle), "
+        "accepted reactions continue as from_smiles cases; every call is checked to leave nodes, adjacency, all attribute dicts and G.graph / H.graph "
         "of its arguments unchanged. "
         "non-trivial = ITS with >= 2 nodes and >= 1 edge; distinct = distinct (G, H) incl. ids, orders and maps")
 TRUSTED = ["model of the attribute dict as a record of the five keys FGUtils uses",
@@ -215,6 +219,131 @@ def smiles_case(smiles):
     return {"op": "from_smiles", "smiles": smiles, "G": g, "H": h, "policy": "smiles", "scheme": "rdkit/rdkit"}
 
 
+# ---- fgutils.rdkit.smiles_to_graph / reaction_smiles_to_graph dispatch -------------------------------------------
+# Tiny model of the dispatch (a documented Python-side invariant; RDKit's acceptance of a part is the oracle `valid`):
+#   parts = smiles.split(">>")
+#   smiles_to_graph:          1 part  -> molecule graph if valid(part) else ValueError("... unable to parse ...")
+#                             2 parts -> (graph, graph) if both valid, else ValueError naming the FIRST invalid part
+#                             else    -> ValueError("Expected reaction SMILES ...")      (checked before any parsing)
+#   reaction_smiles_to_graph: as above, but 1 part is also the "Expected reaction SMILES" error
+#   ITS.from_smiles:          a reaction -> an ITS; the ValueErrors above propagate; a molecule SMILES raises
+GARBAGE = ["xx", "C(", "1CC", "C>O", "[Zz]", "C1CC", "c1ccc1", "C=#C"]
+DISPATCH_KINDS = ["three_parts", "four_parts", "triple_gt", "single_gt", "bad_right", "bad_left", "bad_both", "molecule",
+                  "molecule2", "empty", "only_arrow", "empty_right", "empty_left", "spaces", "trailing_arrow", "ok"]
+
+
+def _rdkit_valid(part):
+    import rdkit.Chem as Chem
+    return Chem.MolFromSmiles(part) is not None
+
+
+def dispatch_model(smiles, valid, reaction_only=False):
+    parts = smiles.split(">>")
+    if len(parts) == 1 and not reaction_only:
+        return ("Mol",) if valid(parts[0]) else ("ValueError", "parse", parts[0])
+    if len(parts) != 2:
+        return ("ValueError", "arity")
+    for p in parts:
+        if not valid(p):
+            return ("ValueError", "parse", p)
+    return ("Rxn",)
+
+
+def _observe(f, smiles):
+    try:
+        v = f(smiles)
+    except Exception as e:
+        msg = str(e)
+        if isinstance(e, ValueError) and msg.startswith("Expected reaction SMILES"):
+            return ("ValueError", "arity"), None
+        if isinstance(e, ValueError) and msg.startswith("RDKit was unable to parse SMILES '") and msg.endswith("'."):
+            return ("ValueError", "parse", msg[len("RDKit was unable to parse SMILES '"):-2]), None
+        return (type(e).__name__, "other", msg[:80]), None
+    if isinstance(v, tuple) and len(v) == 2 and all(isinstance(x, nx.Graph) for x in v):
+        return ("Rxn",), v
+    if isinstance(v, nx.Graph):
+        return ("Mol",), v
+    if isinstance(v, ITS):
+        return ("ITS",), v
+    return ("value", type(v).__name__), v
+
+
+def make_dispatch_case(rng):
+    from fgutils.rdkit import graph_to_smiles as _g2s
+    base = make_smiles_case(rng)["smiles"]
+    a, b = base.split(">>")
+    kind = rng.choice(DISPATCH_KINDS)
+    junk = rng.choice(GARBAGE)
+    s = {"three_parts": a + ">>" + b + ">>" + a, "four_parts": a + ">>" + b + ">>" + a + ">>" + junk,
+         "triple_gt": a + ">>>" + b, "single_gt": a + ">" + b, "bad_right": a + ">>" + junk, "bad_left": junk + ">>" + b,
+         "bad_both": junk + ">>" + rng.choice(GARBAGE), "molecule": a, "molecule2": rng.choice(["CC", "C=O", "[CH3:1][OH:2]"]),
+         "empty": "", "only_arrow": ">>", "empty_right": a + ">>", "empty_left": ">>" + b,
+         "spaces": " " + a + " >> " + b, "trailing_arrow": a + ">>" + b + ">>", "ok": base}[kind]
+    return dispatch_case(s, kind)
+
+
+def dispatch_case(s, kind):
+    from rdkit import RDLogger
+    RDLogger.DisableLog("rdApp.*")
+    try:
+        g, h = nx.Graph(), nx.Graph()
+        if dispatch_model(s, _rdkit_valid) == ("Rxn",):
+            g, h = smiles_to_graph(s)
+    finally:
+        RDLogger.EnableLog("rdApp.*")
+    return {"op": "dispatch", "smiles": s, "kind": kind, "G": g, "H": h, "policy": "dispatch", "scheme": "rdkit/rdkit"}
+
+
+def run_dispatch(c):
+    from rdkit import RDLogger
+    from fgutils.rdkit import reaction_smiles_to_graph, mol_smiles_to_graph
+    s = c["smiles"]
+    RDLogger.DisableLog("rdApp.*")
+    try:
+        o1, v1 = _observe(smiles_to_graph, s)
+        o2, v2 = _observe(reaction_smiles_to_graph, s)
+        o3, v3 = _observe(ITS.from_smiles, s)
+        parts_ok = True
+        if o1 == ("Rxn",):
+            ps = s.split(">>")
+            parts_ok = all(gens.graphs_identical(x, mol_smiles_to_graph(p)) for x, p in zip(v1, ps)) and \
+                all(gens.graphs_identical(x, y) for x, y in zip(v1, v2 or (None, None)) if y is not None)
+        elif o1 == ("Mol",):
+            parts_ok = gens.graphs_identical(v1, mol_smiles_to_graph(s))
+    finally:
+        RDLogger.EnableLog("rdApp.*")
+    out = v3.graph if o3 == ("ITS",) else nx.Graph()
+    return ("ok", out, True, None, False, {"smiles_to_graph": o1, "reaction_smiles_to_graph": o2, "from_smiles": o3,
+                                          "parts_ok": parts_ok})
+
+
+def dispatch_invariants(c, out):
+    from rdkit import RDLogger
+    RDLogger.DisableLog("rdApp.*")
+    try:
+        m1 = dispatch_model(c["smiles"], _rdkit_valid)
+        m2 = dispatch_model(c["smiles"], _rdkit_valid, reaction_only=True)
+    finally:
+        RDLogger.EnableLog("rdApp.*")
+    obs = out[5]
+    msgs = []
+    if tuple(obs["smiles_to_graph"]) != m1:
+        msgs.append("smiles_to_graph(%r): observed %r, dispatch model says %r" % (c["smiles"], obs["smiles_to_graph"], m1))
+    if tuple(obs["reaction_smiles_to_graph"]) != m2:
+        msgs.append("reaction_smiles_to_graph(%r): observed %r, dispatch model says %r"
+                    % (c["smiles"], obs["reaction_smiles_to_graph"], m2))
+    fs = tuple(obs["from_smiles"])
+    if m1 == ("Rxn",) and fs != ("ITS",):
+        msgs.append("ITS.from_smiles(%r) did not return an ITS: %r" % (c["smiles"], fs))
+    elif m1[0] == "ValueError" and fs != m1:
+        msgs.append("ITS.from_smiles(%r): observed %r, expected the dispatch error %r" % (c["smiles"], fs, m1))
+    elif m1 == ("Mol",) and fs in (("ITS",), ("Rxn",), ("Mol",)):
+        msgs.append("ITS.from_smiles(%r) accepted a molecule SMILES" % (c["smiles"],))
+    if not obs["parts_ok"]:
+        msgs.append("smiles_to_graph(%r) is not (mol_smiles_to_graph(left), mol_smiles_to_graph(right))" % (c["smiles"],))
+    return msgs
+
+
 DERIV_HOWS = ["copy", "relabel_copy", "relabel_copy", "relabel_inplace", "subgraph", "same"]
 
 
@@ -383,6 +512,12 @@ def generate(seed, tier, ncases=None):
     n = ncases or (800 if tier == "quick" else 30000)
     for i in range(n):
         rng = lib.rng_for(seed, ID, i)
+        if rng.random() < 0.05:
+            try:
+                yield make_dispatch_case(rng)
+                continue
+            except Exception:
+                pass
         if rng.random() < 0.12:
             try:
                 c = make_smiles_case(rng)
@@ -422,9 +557,14 @@ def corpus():
     g2.add_edge(7, 9, bond=1)
     yield {"op": "get_its", "G": g2, "H": gens.copy_exact(g2), "policy": "corpus", "scheme": "corpus"}
     yield smiles_case("[CH3:1][CH:2]=[O:3].[OH2:4]>>[CH3:1][CH:2]([OH:4])[OH:3]")
+    for smi, kind in [("CC>>CO>>C", "three_parts"), ("C>>>O", "triple_gt"), ("CC>>xx", "bad_right"), ("CC", "molecule2"),
+                      (">>", "only_arrow"), ("[CH3:1][OH:2]>>[CH3:1].[OH2:2]", "ok")]:
+        yield dispatch_case(smi, kind)
 
 
 def run_impl(c):
+    if c["op"] == "dispatch":
+        return run_dispatch(c)
     try:
         if "derivG" in c:
             # history: the base objects go through get_its first, the graphs under test are derived from them
@@ -479,7 +619,10 @@ def coq_case(c, out):
         defs["out"] = "(empty_graph : graph)"
         return {"defs": defs, "checks": {"agree": "false", "spec": "false", "invariant": "false"}, "diag": ["get_its $G $H"]}
     defs["out"] = ct.graph(out[1])
-    if c["op"] == "from_smiles":
+    if c["op"] == "dispatch" and tuple(out[5]["from_smiles"]) != ("ITS",):
+        # an error / molecule answer of the dispatch: nothing for the graph model to say, see py_invariants
+        return {"defs": defs, "checks": {"agree": "true", "spec": "true", "invariant": "true"}, "diag": []}
+    if c["op"] in ("from_smiles", "dispatch"):
         agree = "option_eqb graph_equivb (ITS_from_graphs $G $H) (Some $out)"
     else:
         agree = "graph_equivb (get_its $G $H) $out"
@@ -500,8 +643,10 @@ def coq_case(c, out):
 def describe(c):
     d = {"op": c["op"], "policy": c["policy"], "scheme": c["scheme"],
          "G": ct.graph_py(c["G"]), "H": ct.graph_py(c["H"])}
-    if c["op"] == "from_smiles":
+    if c["op"] in ("from_smiles", "dispatch"):
         d["smiles"] = c["smiles"]
+    if "kind" in c:
+        d["kind"] = c["kind"]
     if "hist" in c:
         d["hist"] = c["hist"]
     for k in ("G2", "H2", "G0", "H0"):
@@ -516,8 +661,10 @@ def describe(c):
 def from_json(d):
     c = {"op": d["op"], "policy": d["policy"], "scheme": d["scheme"],
          "G": ct.graph_from_py(d["G"]), "H": ct.graph_from_py(d["H"])}
-    if d["op"] == "from_smiles":
+    if d["op"] in ("from_smiles", "dispatch"):
         c["smiles"] = d["smiles"]
+    if "kind" in d:
+        c["kind"] = d["kind"]
     if "hist" in d:
         c["hist"] = d["hist"]
     for k in ("G2", "H2", "G0", "H0"):
@@ -535,6 +682,8 @@ def describe_out(out):
 
 def key(c):
     hist = (c["hist"]["kind"], c["hist"]["seed"]) if "hist" in c else None
+    if c["op"] == "dispatch":
+        hist = c["smiles"]
     if "derivG" in c:
         hist = (repr(c["derivG"]), repr(c["derivH"]), ct.graph_canon(c["G0"]), ct.graph_canon(c["H0"]))
     return (c["op"], hist, ct.graph_canon(c["G"]), ct.graph_canon(c["H"]))
@@ -546,6 +695,9 @@ def nontrivial(c, out):
 
 def classes(c, out):
     yield "op=" + c["op"]
+    if c["op"] == "dispatch":
+        yield "dispatch=" + c["kind"]
+        yield "dispatch_answer=" + "/".join(str(x) for x in out[5]["smiles_to_graph"][:2])
     if "hist" in c:
         yield "history=" + c["hist"]["kind"]
     if "derivG" in c:
@@ -579,6 +731,8 @@ def py_invariants(c, out):
         msgs.append("get_its raised %s: %s" % (out[0], out[1]))
     elif not out[2]:
         msgs.append("get_its changed one of its arguments (nodes, adjacency, an attribute dict or the graph-level dict G.graph)")
+    elif c["op"] == "dispatch":
+        msgs.extend(dispatch_invariants(c, out))
     elif out[4]:
         msgs.append("ITS.from_smiles returned an object sharing state with an earlier result for the same string "
                     "(history: %s)" % c["hist"]["kind"])
